@@ -788,7 +788,7 @@ func main() {
 			cases = append(cases, k)
 		}
 		for _, ps := range pinnedScripts {
-			k := &kase{ID: len(cases), Stream: "pinned", Seq: -1, Script: ps.script, Src: "(script)", scriptOnly: true, pinClass: ps.class}
+			k := &kase{ID: len(cases), Stream: "pinned", Seq: -1, Script: "unset IFS u a x; set --; " + ps.script, Src: "(script)", scriptOnly: true, pinClass: ps.class}
 			cases = append(cases, k)
 		}
 	default:
